@@ -773,4 +773,94 @@ theorem enter_step (s : BState) (f : Frame) (P : List Frame) (n b : Nat) (cs : L
   have h2 : ¬ f.id = 0 := by omega
   simp [h1, h2]
 
+
+/-! ## induction over the program -/
+
+theorem run_app (q : Quirks) (xs ys : List Op) : ∀ s : BState,
+    BState.run q s (xs ++ ys) = (BState.run q s xs).bind fun s' => BState.run q s' ys := by
+  induction xs with
+  | nil => intro s; simp [BState.run]
+  | cons x xs ih =>
+    intro s
+    simp only [List.cons_append, BState.run]
+    cases BState.step q s x with
+    | none => simp
+    | some s1 => simp [ih]
+
+theorem attach_append (t : Sel) (a b : List LItem) : attach t (a ++ b) = attach (attach t a) b := by
+  simp [attach, List.foldl_append]
+
+/-- what running the body of block `p` (entered with its fresh condition leaf `i` on the stack) does -/
+def ProgOK (p : Prog) : Prop :=
+  ∀ (s : BState) (D C : List Frame) (i : Nat) (st : List Nat),
+    Inv s (plug (D ++ C) (.leaf i p.blk [])) → s.stack = i :: st → (∀ f ∈ D, f.climbable = true) → stopAt C →
+    ∃ s', BState.run Quirks.today s p.ops = some s' ∧
+      Inv s' (plug C (attach (plug D (p.layBranch s.nodes.length i).1) (p.layBranch s.nodes.length i).2.1)) ∧
+      s'.nodes.length = (p.layBranch s.nodes.length i).2.2 ∧ s'.stack = s.stack ∧ s'.cachedRoot = s.cachedRoot
+
+/-- what running the branch blocks `kids` written in the block with condition leaf `i` does -/
+def KidsOK (kids : Kids) : Prop :=
+  ∀ (s : BState) (D C : List Frame) (i b : Nat) (cs st : List Nat),
+    Inv s (plug (D ++ C) (.leaf i b cs)) → s.stack = i :: st → (∀ f ∈ D, f.climbable = true) → stopAt C →
+    ∃ s', BState.run Quirks.today s kids.ops = some s' ∧
+      Inv s' (plug C (attach (plug D (plug (kids.lay s.nodes.length).1 (.leaf i b cs)))
+        (kids.lay s.nodes.length).2.1)) ∧
+      s'.nodes.length = (kids.lay s.nodes.length).2.2 ∧ s'.stack = s.stack ∧ s'.cachedRoot = s.cachedRoot
+
+theorem prog_case (b : Nat) (kids : Kids) (ih : KidsOK kids) : ProgOK (.mk b kids) := by
+  intro s D C i st hi hs hD hC
+  obtain ⟨s1, e1, i1, l1, st1, c1⟩ := add_step s (D ++ C) i b [] st b hi hs
+  obtain ⟨s2, e2, i2, l2, st2, c2⟩ := ih s1 D C i b ([] ++ [b]) st i1 (st1.trans hs) hD hC
+  refine ⟨s2, ?_, ?_, ?_, st2.trans st1, c2.trans c1⟩
+  · simp only [Prog.ops, BState.run, e1]; exact e2
+  · simpa [Prog.layBranch, l1] using i2
+  · simpa [Prog.layBranch, l1] using l2
+
+theorem nil_case : KidsOK .nil := by
+  intro s D C i b cs st hi hs hD hC
+  refine ⟨s, rfl, ?_, rfl, rfl, rfl⟩
+  simpa [Kids.lay, plug, attach, plug_append] using hi
+
+theorem exit_run (s : BState) (n : Nat) (st : List Nat) (hs : s.stack = n :: st) :
+    s.step Quirks.today .exit = some { s with stack := st } := by
+  simp [BState.step, hs]
+
+theorem ref_case (p : Prog) (rest : Kids) (ihp : ProgOK p) (ihr : KidsOK rest) : KidsOK (.cons .ref p rest) := by
+  intro s D C i b cs st hi hs hD hC
+  obtain ⟨s1, e1, i1, l1, st1, c1, la1⟩ := ref_step s (D ++ C) i b cs st p.blk hi hs
+  -- the new leaf seen from its own path
+  have i1' : Inv s1 (plug (⟨.exceptIf, s.nodes.length + 1, false, .leaf i b cs⟩ :: (D ++ C))
+      (.leaf s.nodes.length p.blk [])) := by simpa [plug, Frame.fill] using i1
+  have e2 := enter_step s1 _ _ _ _ _ i1' la1
+  have i2 : Inv { s1 with stack := s.nodes.length :: s1.stack }
+      (plug ([] ++ ⟨.exceptIf, s.nodes.length + 1, false, .leaf i b cs⟩ :: (D ++ C))
+        (.leaf s.nodes.length p.blk [])) := i1'.of_nodes _ rfl
+  obtain ⟨s3, e3, i3, l3, st3, c3⟩ := ihp _ [] _ _ (s1.stack) i2 rfl (by simp) ⟨rfl, rfl⟩
+  simp only [l1] at i3 l3
+  have e4 := exit_run s3 _ _ st3
+  have i4 : Inv { s3 with stack := s1.stack }
+      (plug ((⟨.exceptIf, s.nodes.length + 1, true,
+        attach (p.layBranch (s.nodes.length + 2) s.nodes.length).1
+          (p.layBranch (s.nodes.length + 2) s.nodes.length).2.1⟩ :: D) ++ C) (.leaf i b cs)) := by
+    have i3' : Inv s3 (plug ((⟨.exceptIf, s.nodes.length + 1, true,
+        attach (p.layBranch (s.nodes.length + 2) s.nodes.length).1
+          (p.layBranch (s.nodes.length + 2) s.nodes.length).2.1⟩ :: D) ++ C) (.leaf i b cs)) := by
+      simpa [plug, Frame.fill] using i3
+    exact i3'.of_nodes _ rfl
+  obtain ⟨s5, e5, i5, l5, st5, c5⟩ := ihr _ _ C i b cs st i4 (by simp [st1, hs])
+    (by intro f hf; simp only [List.mem_cons] at hf; rcases hf with rfl | hf
+        · rfl
+        · exact hD f hf) hC
+  simp only [l3] at i5 l5
+  refine ⟨s5, ?_, ?_, ?_, ?_, ?_⟩
+  · have e1' : s.step Quirks.today (.refinement p.blk) = some s1 := e1
+    simp only [Kids.ops, BState.run, e1', e2]
+    rw [run_app, e3]
+    simp only [Option.bind_some, BState.run, e4]
+    exact e5
+  · simpa [Kids.lay, plug, plug_append, Frame.fill] using i5
+  · simpa [Kids.lay] using l5
+  · simp [st5, st1]
+  · simp [c5, c3, c1]
+
 end KrroodVerif.Rdr
